@@ -120,3 +120,18 @@ void h_K_geo_ctor(void)
   g_ra = nondet_int(); g_a = nondet_int(); g_rb = nondet_int(); g_n1 = 0; g_n2 = 0; g_n3 = 0;
   K_geo_ctor(s, nondet_int(), nondet_int(), nondet_int(), nondet_int());
 }
+
+/* ---- apply / un-apply statements ---- */
+#define CONTRACT_K_apply_block_stmt CONTRACT_K_apply_stmt
+#define CONTRACT_K_apply_eff_stmt CONTRACT_K_apply_stmt
+#define CONTRACT_K_apply_geo_stmt CONTRACT_K_apply_stmt
+#if defined(APPLY_KIND_block)
+#include "K_apply_block_stmt.c"
+void h_K_apply_block_stmt(void) { g_ops = 0; K_apply_block_stmt(nondet_bool(), nondet_int(), nondet_int(), nondet_int(), nondet_int(), nondet_int(), nondet_int()); }
+#elif defined(APPLY_KIND_eff)
+#include "K_apply_eff_stmt.c"
+void h_K_apply_eff_stmt(void) { g_ops = 0; K_apply_eff_stmt(nondet_bool(), nondet_int(), nondet_int(), nondet_int(), nondet_int(), nondet_int()); }
+#elif defined(APPLY_KIND_geo)
+#include "K_apply_geo_stmt.c"
+void h_K_apply_geo_stmt(void) { g_ops = 0; K_apply_geo_stmt(nondet_bool(), nondet_int(), nondet_int(), nondet_int(), nondet_int(), nondet_int()); }
+#endif
